@@ -154,6 +154,12 @@ var c07Recipes = []c07Recipe{
 			f.Var().Id("_").Op("=").List(jen.Qual("x.y/render/v3", "X"), jen.Qual("x.y/render.v6", "X"), jen.Qual("x.y/render/v2", "X"), jen.Qual("x.y/render/v3/sub", "X"))
 		})
 	}},
+	{"dict-integer-and-expression-keys", func(k func(jen.Code) jen.Code) jh.Outcome {
+		return c07File(false, func(f *jen.File) {
+			f.Var().Id("x").Op("=").Map(jen.Int()).String().Values(jen.Dict{
+				k(jen.Lit(9)): jen.Lit("a"), k(jen.Lit(10)): jen.Lit("b"), k(jen.Lit(2).Op("*").Id("factor")): jen.Lit("c"), k(jen.Lit(100)): jen.Lit("d"), k(jen.Id("n")): jen.Lit("e")})
+		})
+	}},
 	// numeric literals that compare equal but are written differently: what one recipe renders
 	// must not depend on the other having been rendered before (the history pass runs both orders)
 	{"zero-literals", func(k func(jen.Code) jen.Code) jh.Outcome {
